@@ -40,12 +40,16 @@ def case_from_items(rnd, d, items, cmds=None, cmd_rate=0.0, config=None):
             impl.append(('cmd', c))
         if it[0] == 'msg':
             events.append(['msg', world.conn_id_of(it[1]), world.pmsg_of(it[2], d)])
-            impl.append(('line', world.render_line(it[2], d)))
+            line = world.render_line(it[2], d)
+            if rnd.random() < 0.03:
+                # program output without a newline glued in front of the message (the decoder searches the line for the message)
+                line = rnd.choice(['connecting... ', 'load [0.5] ', 'x ', '[destroyed object] ', '\t', '100% [', 'wl_a@1.b() ']) + line
+            impl.append(('line', line))
         else:
             events.append(['text', it[1].strip()])
             impl.append(('line', it[1]))
     events.append(['eof'])
-    impl.append(('eof',))
+    impl.append(('eof',) if rnd.random() < 0.9 else ('intr',))      # one input in ten ends with an interrupted read instead of end-of-file
     if cmds:
         for _ in range(rnd.choice([0, 1, 2, 3])):
             c = cmds(rnd)
